@@ -6,6 +6,8 @@ asan      nightly, -Zsanitizer=address, reduced workload, counting allocator com
 tsan      nightly, -Zsanitizer=thread -Zbuild-std, thread engine of C19
 miri      cargo +nightly miri run, tiny workloads (UB / data race / deadlock interpreter)
 memcheck  valgrind memcheck on the `verif` binary, reduced workload
+b64feat   profile `verif` with the library's cargo feature passkey-types/serialize_bytes_as_base64_string
+          (the documented alternative build configuration: byte strings serialise as base64url text)
 """
 import json
 import os
@@ -17,7 +19,8 @@ TRIPLE = "x86_64-unknown-linux-gnu"
 
 # which engines run for which property in which tier (native always first)
 THOROUGH_EXTRA = {
-    "C02": ["memcheck"],
+    "C02": ["b64feat", "memcheck"],
+    "C03": ["b64feat"],
     "C07": ["miri"],
     "C08": ["release"],
     "C12": ["asan", "miri"],
@@ -27,6 +30,8 @@ THOROUGH_EXTRA = {
     "C19": ["tsan", "miri"],
 }
 QUICK_EXTRA = {
+    "C02": ["b64feat"],
+    "C03": ["b64feat"],
     "C08": ["release"],
 }
 
@@ -50,6 +55,9 @@ def build_for(engine, build):
         _built["native"] = _built["memcheck"] = ok
     elif engine == "release":
         ok = build("release")
+    elif engine == "b64feat":
+        ok = build("verif", extra_env={"CARGO_TARGET_DIR": os.path.join(HARNESS, "target-b64")},
+                   extra_args=["--features", "b64bytes"])
     elif engine == "asan":
         ok = build("verif", toolchain="nightly",
                    extra_env={"RUSTFLAGS": "-Zsanitizer=address -Cforce-frame-pointers=yes",
@@ -75,6 +83,9 @@ def run_engine(engine, prop, tier, seed, out, extra, run_vdrive, exe_path, watch
     if engine == "release":
         extra["engine"] = "release"
         return run_vdrive(exe_path("release"), prop, tier, seed, out, extra, timeout=watchdog)
+    if engine == "b64feat":
+        extra["engine"] = "b64feat"
+        return run_vdrive(exe_path("verif", "target-b64"), prop, tier, seed, out, extra, timeout=watchdog)
     if engine == "asan":
         extra["engine"] = "asan"
         extra.setdefault("scale", "10")
